@@ -88,8 +88,9 @@ def theorem_ranges(path):
 # which generated-table sections (tools/translate.py) each property's theorems rest on
 TABLE_DEPENDS = {
     "C01": ("patch", "consts"), "C02": ("shapetype", "patch"), "C03": ("point_sizes", "patch"),
-    "C05": ("consts",), "C06": ("shapetype", "shape_tables", "has_shapetype"), "C07": ("sizes", "point_sizes", "consts"),
-    "C09": ("consts",), "C16": ("patch",), "C17": ("sizes", "consts", "alloc_sites"), "C18": ("sizes",), "C19": ("shapetype",),
+    "C05": ("consts",), "C06": ("shapetype", "shape_tables", "has_shapetype"),
+    "C07": ("size_of_record", "point_sizes", "consts"), "C09": ("consts",), "C16": ("patch",),
+    "C17": ("size_of_record", "consts", "alloc_sites"), "C18": ("size_in_bytes",), "C19": ("shapetype",),
 }
 
 
@@ -100,8 +101,11 @@ def prove(prop, tier, log):
     module = spec["module"]
     names = spec["theorems"]
     res = dict(obligations=list(names), discharged=[], failures=[], checker_cmd=f"cd lean && lake build {module} shpdriver && lake env lean <audit of {len(names)} theorems with #print axioms>", axioms={})
+    # the harness is built first: the translator takes the table-like behaviour from the compiled
+    # crate (`harness dump`), and falls back to parsing the source when it does not build
+    hb_ok, _ = build_harness(log)
     with Lock("lake"):
-        rc, out, err = sh(["python3", os.path.join(VERIF, "tools", "translate.py")])
+        rc, out, err = sh(["python3", os.path.join(VERIF, "tools", "translate.py")], env=None if hb_ok else {"VERIF_NO_EXEC_TABLES": "1"})
         log.append(out.strip())
         if rc != 0:
             res["failures"].append("translator: " + out.strip())
